@@ -19,7 +19,7 @@ RULES = {
           "(no cache store is reachable from the padding step within an iteration)",
     "R3": "cache switch: _cached is False for INDEFINITE sources, else cache itself if bool, else frame_count <= cache; _animate_ disables the cache "
           "exactly when loops == 1; the argument check rejects cache <= 0 unless it is False",
-    "R4": "a hit renders nothing: the only _render_ call of _iterate is guarded by the miss condition (no frame cached, or details differ): its disjuncts are exactly {no cache, no frame stored for this number, details differ}, and on a hit the frame served is cache[frame_no][0]",
+    "R4": "a hit renders nothing: the only _render_ call of _iterate is guarded by the miss condition (no frame cached, or details differ): its disjuncts are exactly {no cache, no frame stored for this number, details differ}, and on a hit the frame served is cache[frame_no][0]; every render made while caching is on is stored: the store has no condition of its own beyond the caching switch",
     "R5": "image iterator: every store into ImageIterator's cache records hash(image.rendered_size) evaluated at the store (after the render), the "
           "second phase compares a fresh hash with the stored one and re-renders on a mismatch; alpha/fmt/style_args are never rebound",
 }
